@@ -27,7 +27,9 @@ def parseGlobal (s : String) : Option Global :=
           | _ => none
         inits.map fun is =>
           { name := name, storage := st, isConst := cs.contains 'c', staticSampler := cs.contains 'x',
-            isObject := cs.contains 'o', readPath := rp, initUses := is.map fun g => ([], g) }
+            isObject := cs.contains 'o', readPath := rp,
+            -- `static int NAME = 0 + a + b;`: below Initializer::Expression and the `+` operators
+            initUses := is.map fun g => ([I "Expression" 0, E "IntrinsicOp" 1], g) }
       | _, _ => none
     | _ => none
   | _ => none
@@ -119,6 +121,7 @@ def answer (p : Program) (entry : Option Nat) : String :=
         match p.funcs[i]? with | some fd => defsText c called i fd | none => []
       let close := (List.range p.funcs.length).map fun i =>
         symName p (.fn i) ++ "={" ++ ",".intercalate (sortStrings ((val cl (.fn i)).map (symName p))) ++ "}"
+      if defs.any (fun d => (d.splitOn "!nested").length > 1) then "unsupported: default argument that itself omits arguments" else
       "defs:" ++ " ".intercalate defs ++ "|close:" ++ ";".intercalate close ++ "|entry:" ++
         (match entry with | some e => entryText c e | none => "-")
 
